@@ -427,6 +427,7 @@ func (r *Report) rescueRenamed(haveKey map[string]bool) {
 		}
 		hows := append([]string{}, o.hows...)
 		all := true
+		rescuedKnown := 0
 		for _, k := range o.need {
 			if _, ok := r.table[k]; ok {
 				all = false // the entry exists and its side condition failed
@@ -441,6 +442,12 @@ func (r *Report) rescueRenamed(haveKey map[string]bool) {
 			var cands []string
 			for tk := range r.table {
 				cands = append(cands, tk)
+			}
+			// known findings follow a rename in the same way (the finding stays a finding)
+			for tk := range r.known {
+				if _, dup := r.table[tk]; !dup {
+					cands = append(cands, tk)
+				}
 			}
 			sort.Strings(cands)
 			for _, tk := range cands {
@@ -501,6 +508,15 @@ func (r *Report) rescueRenamed(haveKey map[string]bool) {
 					whys = append(whys, fmt.Sprintf("entry written for occurrence %d of the text %q in the function; earlier occurrences have since been renamed or removed", n, tcons))
 				}
 				why := strings.Join(whys, "; ")
+				if kf, isKnown := r.known[tk]; isKnown {
+					if _, inTable := r.table[tk]; !inTable {
+						r.usedTbl[tk] = true
+						hows = append(hows, kf.What)
+						rescuedKnown++
+						found = true
+						break
+					}
+				}
 				e := r.table[tk]
 				tmp := *o
 				tmp.Detail = o.rawDetail
@@ -519,7 +535,7 @@ func (r *Report) rescueRenamed(haveKey map[string]bool) {
 		}
 		if all {
 			o.Status = StTable
-			if o.nKnown > 0 {
+			if o.nKnown > 0 || rescuedKnown > 0 {
 				o.Status = StKnown
 			}
 			o.How = strings.Join(hows, "; ")
